@@ -3,18 +3,20 @@ import json, sys
 pid = sys.argv[1]
 props = {json.loads(l)['id']: json.loads(l) for l in open('/verif/properties.jsonl')}
 p = props[pid]
-wt = f"/tmp/wt-{pid}"
+rnd = sys.argv[2] if len(sys.argv) > 2 else "1"
+wt = f"/tmp/wt-{pid}" if rnd == "1" else f"/tmp/w{rnd}-{pid}"
+extra = "" if rnd == "1" else """ In this round, stay away from the most obvious single-operator flips inside the main function the property names: prefer changes in helper functions, in call sites and argument wiring, in initialisation / configuration paths, in error or rarely-taken branches, in the interaction of two functions that each still look right, or in the less prominent clauses of the statement and of its quantifier text (unusual configurations, empty / boundary inputs, rotation or restart histories)."""
 print(f"""You are working on a scratch git worktree of the Go library hashicorp/memberlist (SWIM/Lifeguard gossip membership) at {wt}. Work ONLY inside {wt}. Never touch /repo or /verif, never read anything under /verif, and do not commit anything.
 
 Environment (the sandbox has NO network; run this at the start of every shell command because the environment does not persist):
   export GOFLAGS=-mod=mod GOPROXY=off GOSUMDB=off GOTOOLCHAIN=local PATH=/opt/veriftools/go1.26.8/bin:$PATH
-The existing test suite is run with:  cd {wt} && go test -vet=off -count=1 -timeout 25m ./...   (about 45-60 seconds; a few tests bind loopback ports and are timing sensitive and the machine is shared, so if a test unrelated to your change fails, re-run just that test with -run a few times to confirm it is flaky).
+The existing test suite is run with:  cd {wt} && unshare -rn sh -c 'ip link set lo up; go test -vet=off -count=1 -timeout 25m ./...'   (the unshare wrapper gives the run its own loopback network so that it cannot collide on ports with other jobs on this shared machine; use the same wrapper for every go test invocation; about 45-60 seconds; a few tests bind loopback ports and are timing sensitive and the machine is shared, so if a test unrelated to your change fails, re-run just that test with -run a few times to confirm it is flaky).
 
 Here is a semantic property that the library is supposed to satisfy (this JSON record is all you are given about it):
 
 {json.dumps(p, indent=1)}
 
-YOUR TASK: produce TWO different, independent changes ("seed A" and "seed B") to the library's NON-test source code, each of which BREAKS this property while the code STILL COMPILES and the EXISTING test suite STILL PASSES unchanged. Each must be a realistic, small semantic regression of the kind a plausible refactor, "optimisation" or bug-fix-gone-wrong could introduce (e.g. a changed comparison, a dropped or weakened guard, a re-ordered step, a missing lock/unlock, a skipped branch, a wrong variable, a path that bypasses a mechanism) - not vandalism, and not something that ordinary use would expose at once. Prefer changes that need something SPECIFIC to manifest: a particular interleaving, a fault at a particular point, a multi-step sequence of operations, an unusual input, or two cooperating sites that each look fine alone. The two seeds should attack different mechanisms / different clauses of the property where possible.
+YOUR TASK: produce TWO different, independent changes ("seed A" and "seed B") to the library's NON-test source code, each of which BREAKS this property while the code STILL COMPILES and the EXISTING test suite STILL PASSES unchanged. Each must be a realistic, small semantic regression of the kind a plausible refactor, "optimisation" or bug-fix-gone-wrong could introduce (e.g. a changed comparison, a dropped or weakened guard, a re-ordered step, a missing lock/unlock, a skipped branch, a wrong variable, a path that bypasses a mechanism) - not vandalism, and not something that ordinary use would expose at once. Prefer changes that need something SPECIFIC to manifest: a particular interleaving, a fault at a particular point, a multi-step sequence of operations, an unusual input, or two cooperating sites that each look fine alone. The two seeds should attack different mechanisms / different clauses of the property where possible.{extra}
 
 For EACH seed you must also write a demonstration: a Go test file (package memberlist, in-package, so it can use unexported identifiers; name the test functions TestSeedDemo_...) that FAILS (or panics / is reported by -race if the defect is a data race) WITH your change applied and PASSES WITHOUT it (on the pristine tree). Keep demonstrations deterministic and fast (under ~20 s) where you can; drive internal functions directly rather than relying on real-time network behaviour if possible.
 
